@@ -150,3 +150,14 @@ func VerifC19_Faults(cs int) {
 	}
 	_ = fmt.Sprint
 }
+
+// VerifC19_Races: publishing with 2 and 3 jobs under the happens-before monitor (fair schedule, so
+// that every worker writes files). cs%2 = jobs 2 or 3, cs/2%3 = visibility.
+func VerifC19_Races(cs int) {
+	doc, err := gedcom.NewDocumentFromString(vC19Doc)
+	VsAssume(err == nil)
+	p := vPublish(doc, vAllOptions(vVisibilities[cs/2%3]), cs%2+2, vNewMemWriter())
+	VsObserve(len(p.w.names))
+	VsReach("published-under-the-race-monitor")
+	VsAssert("race-run-publishes", !p.panicked && p.err == nil)
+}
